@@ -330,6 +330,14 @@ Definition blrp_expected (i : blrp_in) : Z * Z :=
   let q := get_or (blrp_size (r_opt_queue i) (r_env_queue i)) 2048%Z in
   (q, match blrp_size (r_opt_batch i) (r_env_batch i) with Some b => Z.min b q | None => 512%Z end).
 
+(** Export timeout of the batch log record processor: values below one nanosecond (zero,
+    negative, or wrapped around) are out of range; option over environment over 30 s. *)
+Definition blrp_export_expected (i : blrp_in) : Z :=
+  get_or (first_of (atleast1 (r_opt_export i)) (atleast1 (option_map ms_to_ns (rd_int (r_env_export i))))) 30000000000.
+(** What an export timeout means for the context handed to the exporter: a positive timeout is
+    a deadline that far away; zero or negative means no deadline (the export still happens). *)
+Definition deadline_expected (t : Z) : option Z := if 0 <? t then Some t else None.
+
 (** ** span limits *)
 Definition limits_from_env (e : limits_env) : limits :=
   {| lim_attr_len := rd_limit2 (le_span_attr_len e) (le_attr_len e) (-1);
